@@ -43,7 +43,10 @@ def build_harness():
     """Rebuild the harness against /repo's current working tree."""
     rc, out = sh([os.path.join(HARNESS, 'build.sh'), IFACES], cwd=HARNESS)
     if rc != 0:
-        raise BuildError("harness build failed:\n" + out[-6000:])
+        i = out.find('\nerror')
+        err = BuildError("harness build failed:\n" + (out[i:i + 6000] if i >= 0 else out[-6000:]))
+        err.full = out
+        raise err
 
 
 def build_lean(targets):
